@@ -37,7 +37,11 @@ class ZernikeStandard:
            12361175.
     """
 
-    def __init__(self, coeffs=[0 for _ in range(36)]):
+    def __init__(self, coeffs=None):
+        if coeffs is None:
+            # a fresh list per object (a list in the signature is shared by
+            # every object built with the default)
+            coeffs = [0 for _ in range(36)]
         if len(coeffs) > 120:  # partial sum of first 15 natural numbers
             raise ValueError('Number of coefficients is limited to 120.')
 
@@ -172,7 +176,7 @@ class ZernikeFringe(ZernikeStandard):
            University_of_Arizona_indices
     """
 
-    def __init__(self, coeffs=[0 for _ in range(36)]):
+    def __init__(self, coeffs=None):
         super().__init__(coeffs)
 
     def _norm_constant(self, n=0, m=0):
@@ -230,7 +234,7 @@ class ZernikeNoll(ZernikeStandard):
         2. Noll, R. J. (1976). "Zernike polynomials and atmospheric
            turbulence". J. Opt. Soc. Am. 66 (3): 207
     """
-    def __init__(self, coeffs=[0 for _ in range(36)]):
+    def __init__(self, coeffs=None):
         super().__init__(coeffs)
 
     def _norm_constant(self, n=0, m=0):
